@@ -8,14 +8,14 @@ PROP = {'gen': [],
  'props_module': 'Props.C08',
  'corr_check': 'SNT.Corr.C08Corr.c08_check (model Surface/Bounds.v vs surf_n_term::surface::ViewBounds for 10 integer types x 7 selector '
                'forms)',
- 'level_text': 'Coq theorem (C08_python_slice_upto_i64max): for every axis length up to i64::MAX, every selector form, every integer type and every bound of that type, '
-               'the model of view_bounds equals Python slice resolution over unbounded integers (hence 0 <= start < end <= n or absent, '
-               'and type-independent). Model tied to the code by a differential run over all ten types, seven forms and extreme bounds '
-               '(plus an exhaustive small sweep). Axes longer than i64::MAX (zero-sized elements only) are a known finding '
-               '(C08_beyond_i64max_refuted, class axis-beyond-i64max, generated and compared with the model). The specification '
-               'py_slice is itself characterised by element membership (C08_spec_by_membership).',
- 'level_note': 'Trusted: Coq kernel; hand-written model of range_bounds/index_i64/casts validated by correspondence; 64-bit target; n <= '
-               'i64::MAX. No axioms.',
+ 'level_text': 'Coq theorem (C08_python_slice): for every axis length a usize can hold (also beyond i64::MAX), every selector form, every '
+               'integer type and every bound of that type, the model of view_bounds equals Python slice resolution over unbounded '
+               'integers; hence the answer is absent or 0 <= start < end <= n (C08_range_model, about the model of the code) and '
+               'type-independent (C08_type_independent). The specification py_slice is itself characterised by element membership '
+               '(C08_spec_by_membership). Model tied to the code by a differential run over all ten types, seven forms, extreme '
+               'bounds and axis lengths up to usize::MAX (plus an exhaustive small sweep).',
+ 'level_note': 'Trusted: Coq kernel; hand-written model of range_bounds/index_i128/casts validated by correspondence; 64-bit target. '
+               'No axioms.',
  'technique': 'Coq proof (case analysis + lia against a Python-slice specification over Z) + model/implementation correspondence',
  'design_ref': 'DESIGN.md 6.8',
  'n_quick': 3000,
@@ -23,11 +23,9 @@ PROP = {'gen': [],
  'shard': 1000,
  'level': 'proof',
  'trusted_base': [KERNEL,
-                  'hand-written model Surface/Bounds.v of ViewBounds::view_bounds / range_bounds / index_i64 (casts and saturating '
+                  'hand-written model Surface/Bounds.v of ViewBounds::view_bounds / range_bounds / index_i128 (casts and saturating '
                   'arithmetic explicit), tied to the code by the correspondence run over all ten integer types',
                   'specification py_slice written from the Python data model (PySlice_AdjustIndices, step 1) over unbounded Z',
                   'Rust harness (generators, canonical printing of observations) and the case files it writes; differential testing '
                   'validates the model, it is not the theorem'],
- 'assumptions': ['C08_python_slice_upto_i64max: axis lengths are at most i64::MAX (no allocation of sized elements is longer); '
-                 'beyond that (zero-sized-type surfaces) the property is refuted (known finding axis-beyond-i64max)',
-                 '64-bit target: usize = u64, isize = i64']}
+ 'assumptions': ['64-bit target: usize = u64, isize = i64']}
